@@ -177,3 +177,15 @@ PROPS['C14'] = {
     'assumptions': H_ASSUME + ['predicates callable with several prototypes are not in the alphabet (the property states nothing about their order)'],
     'bounds': {'quick': 'K=3 pending, <=3 listeners, depth 4-5', 'thorough': 'depth 6-8'},
 }
+
+PROPS['C04'] = {
+    'title': 'dispatch reaches exactly the dispatched event\'s listeners, arguments intact',
+    'level': 'model_checking',
+    'parts': [{'src': 'harness/dispatch.cpp', 'prefix': 'C04/', 'variants': ['g17O0'], 'defs': ['VERIF_SUB=%d' % i, 'VERIF_FULL=0'], 'tier': 'quick'} for i in range(5)]
+           + [{'src': 'harness/dispatch.cpp', 'prefix': 'C04/', 'variants': ['c17'], 'defs': ['VERIF_SUB=2', 'VERIF_FULL=0'], 'tier': 'quick'}]
+           + [{'src': 'harness/dispatch.cpp', 'prefix': 'C04/', 'variants': ['g17', 'c17'], 'defs': ['VERIF_SUB=%d' % i, 'VERIF_FULL=1'], 'tier': 'thorough'} for i in range(5)],
+    'rule': 'type matrix of EventDispatcher instantiations: key type {int, enum class, std::string beyond SSO, struct with <, struct with std::hash and ==} x how the prototype takes key and payload {by value, const&, payload &} x ArgumentPassingMode {auto, include, exclude} (both dispatch forms) x getEvent {default, policy reading a field of the argument that a move clears} x Map {default ordered/hashed, user template}; in each cell a BFS over listener histories (append/prepend/remove on 3 keys, listeners alternately taking arguments by value and by reference) with dispatch of every key in 6 call-site value-category combinations; g++ (right-to-left argument evaluation) and clang++ (left-to-right)',
+    'assumptions': H_ASSUME + ['the matrix is a covering selection of the full product (4 cells per key type in the quick tier, 13 in the thorough tier), not the full product'],
+    'bounds': {'quick': '20 cells under g++ + 4 under clang++, <=3 listeners, depth 3', 'thorough': '65 cells x {g++, clang++}, depth 4'},
+    'per_variant_sigs': True,
+}
